@@ -369,6 +369,7 @@ type State struct {
 	writes map[string]bool // components written on this path (for frame.modifies)
 	names  map[string]Val  // "<func>.<var>#<declpos>" -> latest value seen in a DebugRef (source-level names for invariants)
 	nameSeq map[string]int // order in which the names were last assigned on this path
+	maps   map[int]*MapContent // Go maps created on this path (engine/maps.go)
 	ghost  map[string]Sc   // ghost variables of the function under verification
 	caps   map[string]Val  // captured call arguments/results (contract directive `capture`)
 	wcount map[string]int  // per table: number of write operations so far on this path (iterator validity)
@@ -376,7 +377,7 @@ type State struct {
 
 func NewState() *State {
 	return &State{regs: map[ssa.Value]Val{}, mem: map[*Loc]Val{}, arrs: map[*Arr]*ArrContent{}, comps: map[string]string{},
-		iters: map[*IterObj]*IterState{}, writes: map[string]bool{}, names: map[string]Val{}, nameSeq: map[string]int{}, ghost: map[string]Sc{}, wcount: map[string]int{}, caps: map[string]Val{}}
+		iters: map[*IterObj]*IterState{}, writes: map[string]bool{}, names: map[string]Val{}, nameSeq: map[string]int{}, maps: map[int]*MapContent{}, ghost: map[string]Sc{}, wcount: map[string]int{}, caps: map[string]Val{}}
 }
 
 func (st *State) Clone() *State {
@@ -385,6 +386,10 @@ func (st *State) Clone() *State {
 		iters: make(map[*IterObj]*IterState, len(st.iters)), writes: make(map[string]bool, len(st.writes)), names: make(map[string]Val, len(st.names))}
 	for k, v := range st.names {
 		n.names[k] = v
+	}
+	n.maps = make(map[int]*MapContent, len(st.maps))
+	for k, v := range st.maps {
+		n.maps[k] = v // contents are immutable values: updates replace the content
 	}
 	n.nameSeq = make(map[string]int, len(st.nameSeq))
 	for k, v := range st.nameSeq {
